@@ -26,6 +26,9 @@ dropped = [int(os.path.basename(d).split('-')[1]) for d in glob.glob(f"{V}/seede
 nxt = max(existing + dropped + [2]) + 1
 rows = []
 for sd in sorted(glob.glob(f"{wt}/SEED/*")):
+    if os.path.isdir(sd) and not os.path.basename(sd).startswith("in_"):
+        os.rename(sd, os.path.join(os.path.dirname(sd), "in_" + os.path.basename(sd)))
+for sd in sorted(glob.glob(f"{wt}/SEED/in_*")):
     if not os.path.isdir(sd):
         continue
     patch = f"{sd}/patch.diff"
